@@ -62,7 +62,7 @@ func genC08(seed uint64, tier string) *Scenario {
 	sc.World.Modules = []string{"vikja", "odal", "dagaz"}
 	sc.World.IdleTimeout = 24 * time.Hour
 	off := &Offence{}
-	kinds := []string{"frames", "frames", "frames", "burst_fail", "burst_fail", "midframe", "stall", "stall", "silence", "keepalive"}
+	kinds := []string{"frames", "frames", "frames", "burst_fail", "burst_fail", "midframe", "stall", "stall", "silence", "keepalive", "update_then_close", "update_then_close", "close_amid", "close_amid"}
 	off.Kind = kinds[r.Intn(len(kinds))]
 	switch off.Kind {
 	case "frames":
@@ -92,6 +92,41 @@ func genC08(seed uint64, tier string) *Scenario {
 		off.Cut = []int{0, 0, 3, 60, 600}[r.Intn(5)]
 		off.Then = []string{"resume", "resume", "fin", "rst"}[r.Intn(4)]
 		sc.World.Net.Window = []int{2 << 10, 4 << 10, 64 << 10}[r.Intn(3)]
+	case "update_then_close":
+		n := 1 + r.Intn(4)
+		for i := 0; i < n; i++ {
+			if r.Bool(0.7) {
+				off.Raws = append(off.Raws, mustMarshal(&hagallpb.EntityUpdatePose{Type: hagallpb.MsgType_MSG_TYPE_ENTITY_UPDATE_POSE, Timestamp: fixedTS, EntityId: uint32(1 + r.Intn(3)), Pose: posePB(float32(1000 + i))}))
+			} else {
+				off.Raws = append(off.Raws, mustMarshal(&hagallpb.EntityComponentUpdate{Type: hagallpb.MsgType_MSG_TYPE_ENTITY_COMPONENT_UPDATE, Timestamp: fixedTS, EntityComponentTypeId: 1, EntityId: uint32(1 + r.Intn(3)), Data: []byte("z")}))
+			}
+		}
+		off.Then = []string{"fin", "rst"}[r.Intn(2)]
+		sc.World.FrameDuration = []time.Duration{time.Millisecond, 5 * time.Millisecond, 15 * time.Millisecond}[r.Intn(3)]
+		// slow tasks: the frame worker may be held up in the middle of a frame while the
+		// connection is torn down
+		if sc.World.Policy == "seq" {
+			sc.World.Policy = "rand"
+		}
+		sc.World.StallProb = 0.01
+		sc.World.StallMax = 5 * time.Millisecond
+	case "close_amid":
+		off.Witness = 0
+		// the witness registers a type, subscribes and adds components while the offender leaves
+		off.Raws = append(off.Raws,
+			mustMarshal(&hagallpb.EntityComponentTypeAddRequest{Type: hagallpb.MsgType_MSG_TYPE_ENTITY_COMPONENT_TYPE_ADD_REQUEST, Timestamp: fixedTS, RequestId: 71, EntityComponentTypeName: "alpha"}),
+			mustMarshal(&hagallpb.EntityComponentTypeSubscribeRequest{Type: hagallpb.MsgType_MSG_TYPE_ENTITY_COMPONENT_TYPE_SUBSCRIBE_REQUEST, Timestamp: fixedTS, RequestId: 72, EntityComponentTypeId: 1}))
+		for i := 0; i < 1+r.Intn(4); i++ {
+			switch r.Intn(3) {
+			case 0:
+				off.Raws = append(off.Raws, mustMarshal(&hagallpb.EntityComponentAddRequest{Type: hagallpb.MsgType_MSG_TYPE_ENTITY_COMPONENT_ADD_REQUEST, Timestamp: fixedTS, RequestId: uint32(80 + i), EntityComponentTypeId: 1, EntityId: uint32(1 + r.Intn(3)), Data: []byte("q")}))
+			case 1:
+				off.Raws = append(off.Raws, mustMarshal(&hagallpb.CustomMessage{Type: hagallpb.MsgType_MSG_TYPE_CUSTOM_MESSAGE, Timestamp: fixedTS, Body: []byte("amid")}))
+			default:
+				off.Raws = append(off.Raws, mustMarshal(&hagallpb.EntityAddRequest{Type: hagallpb.MsgType_MSG_TYPE_ENTITY_ADD_REQUEST, Timestamp: fixedTS, RequestId: uint32(90 + i), Pose: posePB(7)}))
+			}
+		}
+		off.Then = []string{"fin", "rst"}[r.Intn(2)]
 	case "silence", "keepalive":
 		sc.World.IdleTimeout = []time.Duration{time.Second, 2 * time.Second, 30 * time.Second, 5 * time.Minute}[r.Intn(4)]
 		// frames short enough that the set-up cannot run into the idle timeout, long enough
